@@ -77,4 +77,23 @@ PROPS = {
         "outside_claim": "Processor's async API (new_query, prepare, inputs, complete, kill), coordinator/follower and shard fan-out; the Running and Completed states as transition targets (tokio JoinHandle; Box<dyn> drop glue); (Empty -> AwaitingCompletion/Completed), which panics by documented design and is not reachable through the Processor API",
         "assumptions": ["logging (tracing) and alloc::fmt::format are stubbed out"],
     },
+    "C14": {
+        "design_ref": "DESIGN.md §3 C14",
+        "functions_encoded": ["helpers::buffers::circular::CircularBuf::{new,next,take,close,len,can_read,can_write,is_closed,capacity,range,inc,mask,wrap}", "circular::Next::write", "<[u8] as BufWriteable>::write"],
+        "bounds": "inductive step from an arbitrary state satisfying the representation invariant (all cursor positions incl. wrap-around, all contents, open/closed), one symbolic operation; (capacity, write, read) in {(4,2,2),(4,2,4),(6,2,4),(6,3,3),(3,1,2),(8,2,4)} quick, plus (8,1,8),(16,4,8),(12,3,6) thorough; histories of any length follow by induction for these triples",
+        "outside_claim": "OrderingSender / UnorderedReceiver under concurrent writers (thread interleavings, wake-up races): Kani has no thread model; other (capacity, write, read) triples",
+        "assumptions": ["representation invariant: cursors < 2*capacity, aligned to write size, (write-read) mod 2*capacity <= capacity",
+                        "logging (tracing) and alloc::fmt::format are stubbed out"],
+    },
+    "C16": {
+        "design_ref": "DESIGN.md §3 C16",
+        "functions_encoded": ["protocol::context::batcher::Batcher::{new,is_ready_for_validation,get_batch_by_offset,batch_offset,is_empty}"],
+        # per-loop bound for tokio's BigNotify (8 Notify cells) so that the global unwind can stay at the
+        # number of batches; passed through to CBMC (--unwindset wins over the harness-wide --unwind)
+        "cbmc_args": ["--unwindset", "_RNvMNtNtNtCskhKtYjmOFG6_5tokio4sync5watch10big_notifyNtB2_9BigNotify14notify_waiters.0:9"],
+        "bounds": "all arrival permutations (symbolic) of totals 3 with 1 or 2 records per batch (quick); totals 4, 5 with 2 or 3 per batch (thorough)",
+        "outside_claim": "the verdict fan-out through tokio::sync::watch inside validate_record's async block (Kani compiler ICE on watch::Receiver), concurrent polling from several threads, DZKPUpgraded wiring",
+        "assumptions": ["the batch object is its own index (batch_constructor = identity)",
+                        "logging (tracing) and alloc::fmt::format are stubbed out"],
+    },
 }
